@@ -233,13 +233,13 @@ func main() {
 		var d *Decl
 		if d = C.DeclBy["lemma:"+n]; d == nil {
 			if ax := C.DeclBy["axiom:"+n]; ax != nil {
-				for _, u := range ax.Uses {
+				for _, u := range append(append([]string{}, ax.Uses...), ax.Needs...) {
 					addLemma(u)
 				}
 			}
 			return
 		}
-		for _, u := range d.Uses {
+		for _, u := range append(append([]string{}, d.Uses...), d.Needs...) {
 			addLemma(u)
 		}
 		q := &Query{Name: "lemma:" + n, Props: d.Props, Kind: "lemma", Uses: d.Uses, Goal: d.Body.String(), prefer: d.By}
@@ -248,6 +248,11 @@ func main() {
 	for _, q := range append([]*Query(nil), queries...) {
 		for _, u := range q.Uses {
 			addLemma(u)
+		}
+	}
+	for _, r := range runs {
+		for n := range r.needs {
+			addLemma(n)
 		}
 	}
 	if prop != "" {
